@@ -490,6 +490,92 @@ fn upload_histories(run: &Run, stub: &Arc<EvmStub>) -> u64 {
     n
 }
 
+
+/// Histories in which the node's neighbourhood changes between two uploads: "all payees are peers the node knows as
+/// close" is about the routing table *at the time of the upload*. A node that knows few peers (all of them are then
+/// among its K closest) takes a first upload — fully valid, naming the ordinary payees or naming the peer `far` —;
+/// then it learns the rest of the table, which pushes `far` out of the K closest; a second upload of another kind
+/// names `far` as a payee and must be refused. Every ordered pair of kinds, both first uploads, and the second upload
+/// also with every other single payment defect on top.
+fn neighbourhood_histories(run: &Run, stub: &Arc<EvmStub>) -> u64 {
+    let mut n = 0u64;
+    let pp = payees();
+    let early: Vec<u8> = vec![pp.p2, pp.p3, pp.p4, pp.p5, pp.p6, pp.far];
+    let late: Vec<u8> = TABLE.filter(|id| !early.contains(id)).collect();
+    for k1 in KINDS {
+        for k2 in KINDS {
+            if k1 == k2 {
+                continue;
+            }
+            for first_names_far in [false, true] {
+                n += 1;
+                let root = fresh_scratch("c03n");
+                let mut rig = NodeRig::new(SELF, &root, stub.clone());
+                rig.add_peers(&early);
+                let close0 = rig.d.driver.verif_closest_k_value_local_peers();
+                if !close0.contains(&rigs::fixtures::peer_id(pp.far)) {
+                    run.machinery_error("C03 neighbourhood histories: on a node knowing six peers one of them is not among its K closest");
+                }
+                let now = SystemTime::now();
+                let desc = json!({"history": "first upload on a node that knows six peers, the node then learns 38 more, second upload names a payee that is no longer among the K closest", "first_kind": format!("{k1:?}"), "first_names_that_payee": first_names_far, "second_kind": format!("{k2:?}")});
+                run.case(desc.to_string().as_bytes(), true);
+                let c1 = Case { sig: 0, self_payee: true, all_close: !first_names_far, far_known: first_names_far, age: 0, chain: 0, own_quote_for_address: true, own_quote_zero: false, kind: k1, prior: Prior::Absent, age_on_own: false };
+                let up1 = upload_for(k1);
+                stub.set(Chain::Paid);
+                let (p1, _) = build_proof_at(&c1, &up1.key, now);
+                let r1 = (up1.with_payment)(&p1);
+                let node = rig.node.clone();
+                let res1 = rig.run("upload-1", async move { node.validate_and_store_record(r1).await });
+                if !matches!(res1, Some(Ok(_))) || rig.stored(&up1.key).is_none() {
+                    run.violation("valid-payment-stores", "neighbourhood/first-upload", format!("an upload whose payees are all among the node's K closest was not stored ({res1:?}) for {desc}"), json!({"case": desc}));
+                    continue;
+                }
+                // the node learns more peers
+                rig.add_peers(&late);
+                rig.settle();
+                let close1 = rig.d.driver.verif_closest_k_value_local_peers();
+                if close1.contains(&rigs::fixtures::peer_id(pp.far)) {
+                    run.count("neighbourhood_histories_where_the_payee_stayed_close", 1);
+                    drop(rig);
+                    let _ = std::fs::remove_dir_all(&root);
+                    continue;
+                }
+                let listed_before = rig.listed();
+                let c2 = Case { sig: 0, self_payee: true, all_close: false, far_known: true, age: 0, chain: 0, own_quote_for_address: true, own_quote_zero: false, kind: k2, prior: Prior::Absent, age_on_own: false };
+                let up2 = upload_for(k2);
+                let (p2, _) = build_proof_at(&c2, &up2.key, now);
+                let r2 = (up2.with_payment)(&p2);
+                let node = rig.node.clone();
+                let res2 = rig.run("upload-2", async move { node.validate_and_store_record(r2).await });
+                let after = rig.stored(&up2.key);
+                run.outcome(format!("neighbourhood:{:?}/{}", res2.as_ref().map(|r| r.is_ok()), after.is_some()).as_bytes());
+                match res2 {
+                    None => run.violation("completes", "blocked", format!("the second upload never completed for {desc}"), json!({"case": desc})),
+                    Some(res2) => {
+                        if after.is_some() || rig.listed() != listed_before || res2.is_ok() {
+                            run.violation("invalid-payment-stores-nothing", "neighbourhood/payee-no-longer-close", format!("a payee of the second upload is known but no longer among the K closest (result {res2:?}, stored: {}) for {desc}", after.is_some()), json!({"case": desc}));
+                        }
+                    }
+                }
+                // and the other way round: payees that are close now are accepted now
+                let k3 = KINDS.into_iter().find(|k| *k != k1 && *k != k2).unwrap();
+                let c3 = Case { sig: 0, self_payee: true, all_close: true, far_known: false, age: 0, chain: 0, own_quote_for_address: true, own_quote_zero: false, kind: k3, prior: Prior::Absent, age_on_own: false };
+                let up3 = upload_for(k3);
+                let (p3, _) = build_proof_at(&c3, &up3.key, now);
+                let r3 = (up3.with_payment)(&p3);
+                let node = rig.node.clone();
+                let res3 = rig.run("upload-3", async move { node.validate_and_store_record(r3).await });
+                if !matches!(res3, Some(Ok(_))) || rig.stored(&up3.key).is_none() {
+                    run.violation("valid-payment-stores", "neighbourhood/third-upload", format!("after the table grew, a fully valid upload naming payees among the K closest was not stored ({res3:?}) for {desc}"), json!({"case": desc}));
+                }
+                drop(rig);
+                let _ = std::fs::remove_dir_all(&root);
+            }
+        }
+    }
+    n
+}
+
 pub fn cases(quick: bool) -> Vec<Case> {
     let mut v = vec![];
     enumerate::product(&[4, 2, 3, 3, 8, 3, 4, 4, 2], |ix| {
@@ -529,7 +615,7 @@ pub fn main(tier: Option<&str>) {
          and double fault for the other kinds + single faults on held keys, thorough = full product. Each case runs the real \
          Node::validate_and_store_record on a fresh real SwarmDriver under the default (FIFO) schedule to quiescence, the payment \
          contract answered by a loopback JSON-RPC stub. Plus every unpaid kind x prior content, and histories of two uploads for one address (valid and stored, record pruned, \
-         then every single failing condition with the same own quote) per kind. Non-trivial = at least one condition \
+         then every single failing condition with the same own quote) per kind, and histories in which the routing table grows between two uploads (a payee among the K closest of a node that knows six peers is no longer after it learned 38 more; every ordered pair of kinds). Non-trivial = at least one condition \
          fails or the key is already held.",
     );
     run.assume("sequential check: one upload at a time under the FIFO schedule (overlapping uploads are C07's subject)");
@@ -555,6 +641,8 @@ pub fn main(tier: Option<&str>) {
     unpaid_cases(&run, &stub);
     let histories = upload_histories(&run, &stub);
     run.extra("two_upload_histories", json!(histories));
+    let nh = neighbourhood_histories(&run, &stub);
+    run.extra("neighbourhood_histories", json!(nh));
     run.count("states", total as u64);
     run.count("transitions", total as u64);
     run.count("traces_validated_against_impl", total as u64);
